@@ -428,3 +428,51 @@ func sortedKeys(m map[string]int) []string {
 }
 
 var _ = strings.Join
+
+// MinimizeSchedule reduces the context switches of a recorded schedule while
+// the same violation persists: each switch is replaced by "keep running the
+// task that was running" (when the recorded choice becomes invalid the replayer
+// falls back to the lowest runnable task, deterministically), and the tail is
+// cut.  The result is re-recorded from the run it produces.
+func MinimizeSchedule(s *Spec, seed uint64, p *prog.Program, sig string, budget time.Duration) *prog.Program {
+	deadline := time.Now().Add(budget)
+	cur := p.Clone()
+	fails := func(q *prog.Program) bool {
+		return sameFailure(s.Exec(seed, q).Viol, sig)
+	}
+	if len(cur.Schedule) == 0 || !fails(cur) {
+		return p
+	}
+	// cut the tail
+	for n := len(cur.Schedule) / 2; n >= 1 && time.Now().Before(deadline); n /= 2 {
+		for len(cur.Schedule) > n {
+			q := cur.Clone()
+			q.Schedule = q.Schedule[:len(q.Schedule)-n]
+			if len(q.Schedule) == 0 || !fails(q) {
+				break
+			}
+			cur = q
+		}
+	}
+	// remove switches
+	for i := 1; i < len(cur.Schedule) && time.Now().Before(deadline); i++ {
+		if cur.Schedule[i] == cur.Schedule[i-1] {
+			continue
+		}
+		q := cur.Clone()
+		q.Schedule[i] = q.Schedule[i-1]
+		if fails(q) {
+			cur = q
+		}
+	}
+	// re-record what is actually executed
+	res := s.Exec(seed, cur)
+	if sameFailure(res.Viol, sig) && len(res.Trace) > 0 {
+		q := cur.Clone()
+		q.Schedule = res.Trace
+		if fails(q) {
+			return q
+		}
+	}
+	return cur
+}
